@@ -66,7 +66,7 @@ func H_C16_shape_str() {
 // H_C16_echo_scalar: int64 / float64 / bool / NULL arguments in three
 // syntactic positions.
 func H_C16_echo_scalar() {
-	kind := verif.Choose("kind", 6)
+	kind := verif.Choose("kind", 7)
 	tpl := verif.Choose("template", 3)
 	templates := []string{"SELECT $1 AS v FROM dual", "SELECT 1-$1 AS v FROM dual", "SELECT 1 - $1 AS v FROM dual"}
 	var arg any
@@ -95,6 +95,20 @@ func H_C16_echo_scalar() {
 	case 5:
 		fs := []float64{math.MaxFloat64, -math.MaxFloat64, math.SmallestNonzeroFloat64, -1e-300, 1e300, 0.1, -0.1, 1e22, 123456789012345680000}
 		num = fs[verif.Choose("float", len(fs))]
+		arg, want = num, num
+	case 6:
+		// whole floats at the powers of two around the integer types' limits, and their neighbours
+		exps := []int{24, 31, 32, 52, 53, 62, 63, 64, 65, 127, 128}
+		num = math.Ldexp(1, exps[verif.Choose("exp", len(exps))])
+		switch verif.Choose("neighbour", 3) {
+		case 1:
+			num = math.Nextafter(num, 0)
+		case 2:
+			num = math.Nextafter(num, math.Inf(1))
+		}
+		if verif.Choose("sign", 2) == 1 {
+			num = -num
+		}
 		arg, want = num, num
 	}
 	if tpl > 0 {
